@@ -118,6 +118,7 @@ func imageSum(m map[string][]byte) uint64 {
 type node struct {
 	b     *base
 	pre   map[string][]byte      // store image before the check forced the running filter (restart diagnosis)
+	ctx   string                 // scenario tag appended to violation keys (failed-commit sweep)
 	diag  *blockchain.Blockchain // restarted twin on a copy of pre, built on the first failing query
 	db    *memory.Database
 	bc    *blockchain.Blockchain
